@@ -597,7 +597,15 @@ def rule_r9_exception_classes(ctx: Ctx) -> None:
                     # re-raise of a caught object / local variable
                     continue
                 if not good:
-                    if name == "NotImplementedError" and (fn.is_abstract or fn.name in ("bit_length_set", "iterate_fields_with_offsets", "__str__")):
+                    overridden_everywhere = False
+                    if name == "NotImplementedError":
+                        from .c13 import abstract_never_runs
+
+                        try:
+                            overridden_everywhere = bool(abstract_never_runs(ctx.repo, fn))
+                        except Exception:
+                            overridden_everywhere = False
+                    if name == "NotImplementedError" and (fn.is_abstract or overridden_everywhere or fn.name in ("bit_length_set", "iterate_fields_with_offsets", "__str__")):
                         continue
                     wl = [reason for (suffix, exn), reason in WHITELIST_NON_IDE.items() if fn.qualname.endswith(suffix) and exn == name]
                     if wl:
